@@ -193,7 +193,11 @@ class CirculationPump(BranchWOInternalsComponent):
         from_nodes = get_from_nodes_corrected(branch_pit[f:t])
         t_from = node_pit[from_nodes, TINIT]
         tout = branch_pit[f:t, TOUTINIT]
-        res_table['deltat_k'].values[:] = t_from - tout
+        # only pumps that took part in the calculation get results (all others stay NaN)
+        lookup_name = "active_heat_transfer" if mode in ["heat", "sequential", "bidirectional"] \
+            else "active_hydraulics"
+        active = get_lookup(net, "branch", lookup_name)[f:t]
+        res_table['deltat_k'].values[active] = (t_from - tout)[active]
 
         fluid = get_fluid(net)
 
@@ -201,4 +205,4 @@ class CirculationPump(BranchWOInternalsComponent):
         cp_i1 = fluid.get_heat_capacity(tout)
 
         mass = branch_pit[f:t, MDOTINIT]
-        res_table['qext_w'].values[:] = mass * (cp_i1 * tout - cp_i * t_from)
+        res_table['qext_w'].values[active] = (mass * (cp_i1 * tout - cp_i * t_from))[active]
